@@ -173,6 +173,7 @@ package datamodel
 //@ pure func atoi(s string) mathint
 //@ pure func segidxok(ps PathSegment) bool = ps.i >= 0 || atoiok(ps.s)
 //@ pure func segidx(ps PathSegment) mathint = ps.i >= 0 ? ps.i : atoi(ps.s)
+//@ pure func segeq(a PathSegment, b PathSegment) bool = (a.i >= 0 && b.i >= 0) ? a.i == b.i : segstr(a) == segstr(b)
 
 //@ func PathSegmentOfString(s) (r)
 //@   assigns nothing
